@@ -68,6 +68,10 @@ Consume(f) ==
   /\ used' = used \cup {f}
   /\ UNCHANGED <<tph, tno, nacc, readPids, sigs, stat>>
 
+\* binding of "unavailable, not guessed" to the real accessors: asked for a statistic whose only source is under a
+\* file-level fault, the accessor must answer "unavailable" (stage B: StatQuery events of tick_driver)
+Query(avail) == tph = "idle" /\ avail = FALSE /\ UNCHANGED <<tph, tno, nacc, readPids, sigs, stat, used>>
+
 UnavailableNotGuessed == \A f \in used : StatOf(f) = "avail"
 Containment == \A s \in sigs : s.sig = 9 /\ s.pid > 0 /\ \E p \in DOMAIN readPids : s.pid \in readPids[p]
 =============================================================================
